@@ -2,6 +2,7 @@ package sx
 
 import (
 	"fmt"
+	"sort"
 	"go/types"
 	"hash/crc32"
 	"html"
@@ -563,7 +564,7 @@ func (m *Machine) registerUnicode() {
 			d.Native = func(a []uint64) uint64 { return b2u(f(rune(int32(uint32(a[0]))))) }
 			d.Lemma = func(arg uint64) (uint64, uint64, int, uint64, uint64) {
 				g := func(x uint64) uint64 { return b2u(f(rune(int32(uint32(x))))) }
-				lo, hi, par := scanRun(arg, g)
+				lo, hi, par := scanRunT(getRunTable(name, g), arg)
 				return lo, hi, par, g(arg), 0
 			}
 			m.st.UF[name] = d
@@ -574,7 +575,7 @@ func (m *Machine) registerUnicode() {
 				g := func(x uint64) uint64 { // delta
 					return uint64(uint32(f(rune(int32(uint32(x))))) - uint32(x))
 				}
-				lo, hi, par := scanRun(arg, g)
+				lo, hi, par := scanRunT(getRunTable(name, g), arg)
 				return lo, hi, par, g(arg), 1
 			}
 			m.st.UF[name] = d
@@ -582,34 +583,67 @@ func (m *Machine) registerUnicode() {
 	}
 }
 
+// runTable holds the maximal runs of constant value of a function over 0..maxRune.
+type runTable struct {
+	starts []uint32 // starts[i] is the first code point of run i
+	vals   []uint64
+}
+
+var (
+	runTabMu sync.Mutex
+	runTabs  = map[string]*runTable{}
+)
+
+func getRunTable(key string, g func(uint64) uint64) *runTable {
+	runTabMu.Lock()
+	defer runTabMu.Unlock()
+	if rt, ok := runTabs[key]; ok {
+		return rt
+	}
+	rt := &runTable{}
+	var cur uint64
+	for r := uint64(0); r <= maxRune; r++ {
+		v := g(r)
+		if r == 0 || v != cur {
+			rt.starts = append(rt.starts, uint32(r))
+			rt.vals = append(rt.vals, v)
+			cur = v
+		}
+	}
+	runTabs[key] = rt
+	return rt
+}
+
+func (rt *runTable) end(i int) uint64 {
+	if i+1 < len(rt.starts) {
+		return uint64(rt.starts[i+1]) - 1
+	}
+	return maxRune
+}
+
 // scanRun finds a maximal interval around v (within the 32-bit unsigned
 // domain) on which g is constant, or constant on every second point.
-func scanRun(v uint64, g func(uint64) uint64) (lo, hi uint64, par int) {
+func scanRunT(rt *runTable, v uint64) (lo, hi uint64, par int) {
 	if v > maxRune {
 		return maxRune + 1, 0xFFFFFFFF, -1
 	}
-	c := g(v)
-	lo, hi = v, v
-	for lo > 0 && g(lo-1) == c {
-		lo--
-	}
-	for hi < maxRune && g(hi+1) == c {
-		hi++
-	}
-	if lo != hi || v == 0 || v == maxRune {
+	i := sort.Search(len(rt.starts), func(k int) bool { return uint64(rt.starts[k]) > v }) - 1
+	lo, hi = uint64(rt.starts[i]), rt.end(i)
+	if lo != hi {
 		return lo, hi, -1
 	}
-	// try stride 2
-	for lo >= 2 && g(lo-2) == c {
-		lo -= 2
+	single := func(k int) bool { return k >= 0 && k < len(rt.starts) && uint64(rt.starts[k]) == rt.end(k) }
+	l, r := i, i
+	for single(l-1) && single(l-2) && rt.vals[l-2] == rt.vals[i] {
+		l -= 2
 	}
-	for hi+2 <= maxRune && g(hi+2) == c {
-		hi += 2
+	for single(r+1) && single(r+2) && rt.vals[r+2] == rt.vals[i] {
+		r += 2
 	}
-	if lo == hi {
+	if l == r {
 		return lo, hi, -1
 	}
-	return lo, hi, 0
+	return uint64(rt.starts[l]), uint64(rt.starts[r]), 0
 }
 
 // ---------- fmt ----------
